@@ -183,12 +183,20 @@ def run(ctx, res):
                 continue
             row["_bad_" + path] = (safe, exp)
         reqs += [("params_to_ical", [1, d_wire(d)]), ("params_to_ical", [0, d_wire(d)]),
-                 ("params_from_ical", text), ("parts", row.get("line_text", "X:"))]
+                 ("params_from_ical", text), ("parts", row.get("line_text", "X:")),
+                 ("c05_guards", ["X-NAME", d_wire(d), 1, "v"])]
     outs = M.batch(reqs) if M else None
+    n_in_guard = 0
     for i, ((kind, d), row) in enumerate(zip(cases, rows)):
         m_parts = None
         if outs is not None:
-            m_text, m_text_u, m_alone, m_parts = outs[4 * i:4 * i + 4]
+            m_text, m_text_u, m_alone, m_parts, m_guards = outs[5 * i:5 * i + 5]
+            if m_guards != ["unsupported"] and all(m_guards[:4]):
+                # inside the guards of theorem C08_params_line_rt: a deviation can never be the known finding
+                n_in_guard += 1
+                for path in ("line", "comp"):
+                    if "_bad_" + path in row:
+                        row["_bad_" + path] = (True, row["_bad_" + path][1])
             res.corr("Parameters.to_ical(sorted)", d, row["text"], m_text)
             res.corr("Parameters.to_ical(unsorted)", d, row["text_unsorted"], m_text_u)
             res.corr("Parameters.from_ical", row["text"], row["alone"], m_alone)
@@ -205,6 +213,7 @@ def run(ctx, res):
             else:
                 res.fail(f"C08 {path}: parameters read back differ" + ("" if safe else " (outside guard, not as the model predicts)"),
                          d, observed=got, expected=exp)
+    res.extra["line_cases_inside_theorem_guards"] = n_in_guard
     # leaf correspondence: dquote / q_split / q_join on raw strings
     if M:
         rng = common.rng_for(ctx.seed, "c08-leaf")
